@@ -147,7 +147,7 @@ PROPS["C01"] = dict(
     title='Publish reaches exactly the subscribed handlers, once each, in order',
     theorems="Properties/C01.v",
     proof_files=["Bus/BusModel.v", "Bus/BusRun.v", "Bus/BusInv.v", "Properties/C01.v"],
-    suites=[dict(name="bus01", mod="core", family="bus01", corr="Corr.BusOracle", check="check_bus", shard=25), dict(name="busseq", mod="core", family="busseq", corr="Corr.BusOracle", check="check_bus", shard=25), dict(name="busstress", mod="core", family="busstress", corr="Corr.CorrStress", check="check_stress", shard=150)],
+    suites=[dict(name="bus01", mod="core", family="bus01", corr="Corr.BusOracle", check="check_bus", shard=25), dict(name="busseq", mod="core", family="busseq", corr="Corr.BusOracle", check="check_bus", shard=25), dict(name="busstress", mod="core", family="busstress", corr="Corr.CorrStress", check="check_stress01", shard=150)],
     level_text="Proved in Coq on the small-step model, for every state/program/routing function: the snapshot step queues exactly the registrations of the published type at that step, in subscription order, each once, never another type's; the per-registration decisions (filter, once-claim, cancellation) are exact; Subscribe appends one registration to its own type only; Unsubscribe removes exactly the first registration of the function or reports not-found and changes nothing; Clear empties exactly its type; each shard step of ClearAll empties exactly the types routed there, for ANY routing; HasHandlers/HandlerCount return the registry's size. Re-entrant calls are ordinary later steps. The model is tied to event_bus.go by replaying controller-driven runs of random re-entrant programs over up to 40 event types (> 32 shards), all option combinations and any-typed publishes; an oracle with its own flat registry judges every observed run (exact snapshot membership, order of sync handlers, filters, exactly-once, count/has results, final counts).",
     level_note='Trusted: Coq kernel + vm_compute; the hand-written small-step model of event_bus.go / persistEvent (flat registry; sync.Mutex, RWMutex, WaitGroup, atomic CAS, goroutine creation and recover are modelled as atomic micro-steps); the controller harness (parks goroutines at user-code callbacks, reads goroutine states from runtime.Stack) and the replay of its log on the model (Bus/BusRun.v); the oracle Corr/BusOracle.v; interleavings strictly inside bus code are not forced by the controller.',
     rule='cases = seeded random programs (threads, handler/filter/hook bodies that call back into the bus, options) run on the real bus under the controller with a seeded random schedule; every run is replayed on the Coq model along the controller log and judged by the oracle; directed witness programs run first; C01: one goroutine, 2-5 or 33-40 event types, all Once/Async/Sequential/filter combinations, SubscribeContext, duplicate functions, bodies that subscribe/unsubscribe/clear/publish to depth 3; non-trivial = every case (each has >= 1 publish reaching a handler or a registry query); distinct = distinct program+schedule',
@@ -156,7 +156,7 @@ PROPS["C02"] = dict(
     title='Subscribe, unsubscribe and publish stay consistent under every interleaving',
     theorems="Properties/C02.v",
     proof_files=["Bus/BusModel.v", "Bus/BusRun.v", "Bus/BusInv.v", "Properties/C02.v"],
-    suites=[dict(name="bus02", mod="core", family="bus02", corr="Corr.BusOracle", check="check_bus", shard=25), dict(name="buscon", mod="core", family="buscon", corr="Corr.BusOracle", check="check_bus", shard=25), dict(name="busstress", mod="core", family="busstress", corr="Corr.CorrStress", check="check_stress", shard=150)],
+    suites=[dict(name="bus02", mod="core", family="bus02", corr="Corr.BusOracle", check="check_bus", shard=25), dict(name="buscon", mod="core", family="buscon", corr="Corr.BusOracle", check="check_bus", shard=25), dict(name="busstress", mod="core", family="busstress", corr="Corr.CorrStress", check="check_stress02", shard=150)],
     level_text="Proved in Coq for EVERY schedule of every program (induction over micro-steps): registration identities within a type are unique and never reused (no subscription duplicated, none resurrected); every registry operation and the publish snapshot are single atomic micro-steps with exact effect, so each takes effect at one point between call and return. The must-receive / never-receive / at-most-once / final-count clauses are decided on observed runs by the oracle, which linearises the controller's log, keeps its own flat registry and checks snapshot membership, exactly-once delivery, completeness for live contexts and the final HandlerCount. Tied to the code by controller-driven runs of 2-4 goroutines on 1-3 shared types.",
     level_note='Trusted: Coq kernel + vm_compute; the hand-written small-step model of event_bus.go / persistEvent (flat registry; sync.Mutex, RWMutex, WaitGroup, atomic CAS, goroutine creation and recover are modelled as atomic micro-steps); the controller harness (parks goroutines at user-code callbacks, reads goroutine states from runtime.Stack) and the replay of its log on the model (Bus/BusRun.v); the oracle Corr/BusOracle.v; interleavings strictly inside bus code are not forced by the controller.',
     rule='cases = seeded random programs (threads, handler/filter/hook bodies that call back into the bus, options) run on the real bus under the controller with a seeded random schedule; every run is replayed on the Coq model along the controller log and judged by the oracle; directed witness programs run first; C02: 2-4 goroutines x 2-7 operations on 1-3 shared types, random control-point interleavings; non-trivial = every case; distinct = distinct program+schedule',
@@ -176,7 +176,7 @@ PROPS["C04"] = dict(
     title='A Once handler fires at most once, and exactly once when eligible',
     theorems="Properties/C04.v",
     proof_files=["Bus/BusModel.v", "Bus/BusRun.v", "Bus/BusInv.v", "Properties/C04.v"],
-    suites=[dict(name="bus04", mod="core", family="bus04", corr="Corr.BusOracle", check="check_bus", shard=25), dict(name="buscon", mod="core", family="buscon", corr="Corr.BusOracle", check="check_bus", shard=25), dict(name="oncecancel", mod="core", family="oncecancel", corr="Corr.CorrOnce", check="check04x", shard=50), dict(name="busstress", mod="core", family="busstress", corr="Corr.CorrStress", check="check_stress", shard=150)],
+    suites=[dict(name="bus04", mod="core", family="bus04", corr="Corr.BusOracle", check="check_bus", shard=25), dict(name="buscon", mod="core", family="buscon", corr="Corr.BusOracle", check="check_bus", shard=25), dict(name="oncecancel", mod="core", family="oncecancel", corr="Corr.CorrOnce", check="check04x", shard=50), dict(name="busstress", mod="core", family="busstress", corr="Corr.CorrStress", check="check_stress04", shard=150)],
     level_text="Proved in Coq for EVERY schedule of every program: the number of entries into a Once registration over the whole run is <= 1, and an entry implies its flag was claimed (invariant: entries + deliveries in flight <= claimed flag, preserved by every micro-step incl. panics and async spawns); the claim is reached only after the filter accepted and with a live context, so filtered-out or already-cancelled publishes do not consume it. 'Exactly once when eligible' (liveness) is decided on observed runs by the oracle. Tied to the code by controller-driven runs with 1-3 concurrent publishers, sync/async Once handlers, filters, cancelled contexts. The asynchronous claim/cancel hole (context cancelled after PublishContext returned and before the delivery goroutine of an Async Once handler starts - the usual defer cancel()) is run on one processor against the model on exactly that schedule (suite oncecancel; the defect it showed was repaired by a fix: commit); the synchronous form of the hole (a preemption between two adjacent statements) is REFUTED on the model with a witness schedule and cannot be forced on the real code.",
     level_note='Trusted: Coq kernel + vm_compute; the hand-written small-step model of event_bus.go / persistEvent (flat registry; sync.Mutex, RWMutex, WaitGroup, atomic CAS, goroutine creation and recover are modelled as atomic micro-steps); the controller harness (parks goroutines at user-code callbacks, reads goroutine states from runtime.Stack) and the replay of its log on the model (Bus/BusRun.v); the oracle Corr/BusOracle.v; interleavings strictly inside bus code are not forced by the controller.',
     rule='cases = seeded random programs (threads, handler/filter/hook bodies that call back into the bus, options) run on the real bus under the controller with a seeded random schedule; every run is replayed on the Coq model along the controller log and judged by the oracle; directed witness programs run first; C04: 70% Once handlers, half the publishes on cancellable contexts, 1-3 publishers; directed: cancelled-then-eligible, filtered-then-eligible; non-trivial = every case; distinct = distinct program+schedule',
@@ -203,7 +203,7 @@ PROPS["C07"] = dict(
     title='Sequential handlers never overlap and process events in publish order',
     theorems="Properties/C07.v",
     proof_files=["Bus/BusModel.v", "Bus/BusRun.v", "Bus/BusInv.v", "Properties/C07.v"],
-    suites=[dict(name="bus07", mod="core", family="bus07", corr="Corr.BusOracle", check="check07", shard=25), dict(name="buscon", mod="core", family="buscon", corr="Corr.BusOracle", check="check07", shard=25), dict(name="busstress", mod="core", family="busstress", corr="Corr.CorrStress", check="check_stress", shard=150)],
+    suites=[dict(name="bus07", mod="core", family="bus07", corr="Corr.BusOracle", check="check07", shard=25), dict(name="buscon", mod="core", family="buscon", corr="Corr.BusOracle", check="check07", shard=25), dict(name="busstress", mod="core", family="busstress", corr="Corr.CorrStress", check="check_stress07", shard=150)],
     level_text="Proved in Coq for EVERY schedule of every program: two different actors never hold the lock of the same Sequential registration, and an actor is inside such a handler's body only while holding it (lock-discipline invariant over micro-steps, incl. panics and pending calls). The ordering clause for Async+Sequential handlers is REFUTED on the faithful model (theorem C07_async_order_refuted, a 2-event schedule) and reproduced on the real code by the controller: known finding. Exactly-once delivery is C01/C02. Tied to the code by controller-driven runs with sync/async Sequential handlers and 1-3 publishers; the harness itself flags overlapping invocations.",
     level_note='Trusted: Coq kernel + vm_compute; the hand-written small-step model of event_bus.go / persistEvent (flat registry; sync.Mutex, RWMutex, WaitGroup, atomic CAS, goroutine creation and recover are modelled as atomic micro-steps); the controller harness (parks goroutines at user-code callbacks, reads goroutine states from runtime.Stack) and the replay of its log on the model (Bus/BusRun.v); the oracle Corr/BusOracle.v; interleavings strictly inside bus code are not forced by the controller.',
     rule='cases = seeded random programs (threads, handler/filter/hook bodies that call back into the bus, options) run on the real bus under the controller with a seeded random schedule; every run is replayed on the Coq model along the controller log and judged by the oracle; directed witness programs run first; C07: 80% Sequential, 60% async, observability on in half the cases so that async deliveries can be held before the lock; directed: the 2-event reordering; non-trivial = every case; distinct = distinct program+schedule',
@@ -221,7 +221,7 @@ PROPS["C09"] = dict(
     title='Every publish on a persistent bus is recorded once, before it is delivered',
     theorems="Properties/C09.v",
     proof_files=["Bus/BusModel.v", "Bus/BusRun.v", "Bus/BusInv.v", "Properties/C09.v"],
-    suites=[dict(name="bus09", mod="core", family="bus09", corr="Corr.BusOracle", check="check_bus", shard=25), dict(name="bus13", mod="core", family="bus13", corr="Corr.BusOracle", check="check_bus", shard=25), dict(name="busstress", mod="core", family="busstress", corr="Corr.CorrStress", check="check_stress", shard=150)],
+    suites=[dict(name="bus09", mod="core", family="bus09", corr="Corr.BusOracle", check="check_bus", shard=25), dict(name="bus13", mod="core", family="bus13", corr="Corr.BusOracle", check="check_bus", shard=25), dict(name="busstress", mod="core", family="busstress", corr="Corr.CorrStress", check="check_stress09", shard=150)],
     level_text='Proved in Coq: for EVERY option list containing WithStore (any order, any other hooks, hooks given after the store) the bus has a store and its before-slot contains the persistence step; exactly one such step when WithStore occurs once; the before-slot runs before the snapshot, so no handler of the publish runs before the record is stored; over every schedule the log grows only by the append step, one record per successful append, in append order. Tied to the code by controller-driven runs over random option orders, 1-3 concurrent publishers, handlers that look the record up in the store on entry.',
     level_note='Trusted: Coq kernel + vm_compute; the hand-written small-step model of event_bus.go / persistEvent (flat registry; sync.Mutex, RWMutex, WaitGroup, atomic CAS, goroutine creation and recover are modelled as atomic micro-steps); the controller harness (parks goroutines at user-code callbacks, reads goroutine states from runtime.Stack) and the replay of its log on the model (Bus/BusRun.v); the oracle Corr/BusOracle.v; interleavings strictly inside bus code are not forced by the controller.',
     rule='cases = seeded random programs (threads, handler/filter/hook bodies that call back into the bus, options) run on the real bus under the controller with a seeded random schedule; every run is replayed on the Coq model along the controller log and judged by the oracle; directed witness programs run first; C09: persistent buses, options in random order incl. hooks after the store, 1-3 publishers; directed: WithStore before WithBeforePublishContext; non-trivial = every case; distinct = distinct program+schedule',
